@@ -30,4 +30,16 @@ CLAIMED = {
                 "rounded table constants; whether an under-specified call is accepted or refused is left open.",
         "technique": "property-based testing: model-based operation histories (hypothesis) against a reference conversion model + invariants after every step",
     },
+    "C03": {
+        "text": "Hypothesis-drawn point isotherms in any stored configuration x fully specified requested representations: "
+                "pressure()/loading()/loading_at()/pressure_at() must equal the reference conversion of the native numbers and "
+                "a permanently converted clone read natively; foreign-unit inputs are compared conditioning-aware; branch/limit "
+                "selection equals a plain python filter; the branch guess is checked for label/dtype independence and the "
+                "position rule; interpolation against numpy.interp, refusal outside the range and fill rules; ModelIsotherm "
+                "accessors against the bare model on reference-converted values.",
+        "note": "Open finding KF-C03-1 (fraction/percent combined with a foreign material representation in accessor paths) is "
+                "excluded by a narrow predicate and counted; limits strictly between data values; requests are full "
+                "(mode/basis, unit) pairs per quantity.",
+        "technique": "property-based testing: differential against a permanently converted clone + reference conversion model, python-filter and numpy.interp oracles, metamorphic relabelling",
+    },
 }
